@@ -8,7 +8,7 @@ PROP = "C07"
 def make_cases(rng, tier, n):
     cases, stats = [], {}
     for i in range(n):
-        if rng.random() < 0.35:
+        if rng.random() < 0.35 or i % 10 == 3:
             c = gen.pipeline_project(rng, "se-%d" % i, rng.choice([2, 3]), tier=tier)
             c["ops"] = [("run", False, [])]
             pipe = True
@@ -17,11 +17,11 @@ def make_cases(rng, tier, n):
             c["ops"] = []
             pipe = False
         names = [sp for sp, st in c["stages"]]
-        if pipe and rng.random() < 0.3:
+        if pipe and (rng.random() < 0.3 or i % 10 == 3):
             # "dud itself never touches a stage's artifacts while running": every stage gets a command that looks but does not
             # touch (tools/vprobe), in states where the outputs are committed links, dangling links (cache gone), absent or edited
             ops = [("run", False, []), ("commit", rng.choice("lc"), [])]
-            state = rng.choice(["links", "dangling", "absent", "edited"])
+            state = ["links", "dangling", "absent", "edited"][(i // 10) % 4] if i % 10 == 3 else rng.choice(["links", "dangling", "absent", "edited"])
             outs = [o for sp, st in c["stages"] for o in st["out"]]
             if state == "dangling":
                 ops.append(("wipecache",))
